@@ -65,31 +65,50 @@ def build_chain(chain, base, mask, want_ref=True):
 
     node = jnp.asarray(base)
     ref = np.asarray(base, float) if want_ref else None
-    for w in chain:
+    for ci_, w in enumerate(chain):
         if not want_ref:
             if w == "BR":
                 node = W.BijectionReparam(node, B.SoftPlus(), invert_on_init=False)
             elif w == "Where":
-                node = W.Where(jnp.asarray(mask), node, 0.25)
+                shp = _shape_after(chain[:ci_], base)
+                node = W.Where(jnp.asarray(_mask(shp)), node, 0.25)
             elif w == "WN":
                 node = W.WeightNormalization(node)
             elif w == "Lambda":
-                node = W.Lambda(lambda a: 2.0 * a + 1.0, node)
+                node = W.Lambda(_rank_sensitive, node)
             elif w == "NT":
                 node = W.NonTrainable(node)
             continue
         if w == "BR":
             node, ref = W.BijectionReparam(node, B.SoftPlus(), invert_on_init=False), _softplus(ref)
         elif w == "Where":
-            node, ref = W.Where(jnp.asarray(mask), node, 0.25), np.where(mask, ref, 0.25)
+            m_ = _mask(ref.shape)
+            node, ref = W.Where(jnp.asarray(m_), node, 0.25), np.where(m_, ref, 0.25)
         elif w == "WN":
             nrm = np.linalg.norm(ref, axis=-1, keepdims=True)
             node, ref = W.WeightNormalization(node), (1 / nrm) * ref / nrm
         elif w == "Lambda":
-            node, ref = W.Lambda(lambda a: 2.0 * a + 1.0, node), 2.0 * ref + 1.0
+            node, ref = W.Lambda(_rank_sensitive, node), 0.5 * ref @ ref.T + 1.0 + ref[0, 0]
         elif w == "NT":
             node, ref = W.NonTrainable(node), ref
     return node, ref
+
+
+def _rank_sensitive(a):
+    # NOT broadcast-safe on purpose: gives a wrong value / shape unless unwrap vectorises it over construction axes
+    return 0.5 * a @ a.T + 1.0 + a[0, 0]
+
+
+def _mask(shape):
+    return np.arange(int(np.prod(shape))).reshape(shape) % 2 == 0
+
+
+def _shape_after(chain, base):
+    shp = tuple(np.shape(base))[-2:]
+    for w in chain:
+        if w == "Lambda":
+            shp = (shp[0], shp[0])
+    return shp
 
 
 def _has_wrapper(tree):
